@@ -2,6 +2,7 @@ SPECIFICATION Spec
 CONSTANT Part = "machine"
 CONSTANT Deviation = "FixedTauNotStored"
 CONSTANT MaxDepth = 3
+CONSTANT Rebounds = FALSE
 CONSTANT Export = FALSE
 INVARIANT C05_ForecastUses
 CHECK_DEADLOCK FALSE
